@@ -1,1 +1,680 @@
-/-! C13 — property theorems (none yet). -/
+import Req.H1.BufLine
+import Req.Lemmas.BufLine
+import Req.Client.Dump
+/-!
+C13 — dump is transparent and faithful: property theorems.
+
+Part 1 (this section): the response-header line reader.
+`dump_readline_equiv`   — the dumping `readLine` installed by `newTextprotoReader` returns the
+                          same (line, isPrefix, err) and leaves the bufio reader in the same state
+                          as `bufio.ReadLine`, for every buffer size, every reader state and every
+                          read script (hence for every line length, also > B).
+`dump_readline_exact`   — what it hands to the dumper is exactly what it consumed.
+`dump_readlineslice_*`  — the same two facts for `readLineSlice` (the accumulation loop), i.e.
+                          for whole status / header lines of any length.
+`dump_prog_*`           — and for ANY parser written on top of `readLine` plus direct reader
+                          access (ReadMIMEHeader, readContinuedLineSlice, …).
+`old_dump_readline_*`   — the closure as it stands in the pinned tree is NOT equivalent: witness
+                          for B = 16 (replayed on the implementation with B = 4096 by the lane);
+                          it agrees whenever no line reaches the buffer size.
+-/
+namespace Req.Props.C13
+open Req.Proto Req.H1.BufLine
+
+/-! ### the dumping readLine is `bufio.ReadLine` -/
+
+/-- **dump_readline_equiv**: same result, same reader state. (`16 ≤ B` is what
+`bufio.NewReaderSize` guarantees; the equality needs no bound.) -/
+theorem dump_readline_equiv (B : Nat) (_hB : 16 ≤ B) (st : Rd) :
+    ((dumpReadLine B st).1, (dumpReadLine B st).2.1) = readLine B st := by
+  cases h : readSlice B st with
+  | mk r st1 =>
+    simp only [dumpReadLine, readLine, h]
+    split <;> split <;> rfl
+
+/-- **dump_readline_exact**: dumped bytes ++ everything still unread = everything that was
+unread before: the dump is exactly the consumed bytes (a put-back '\r' is dumped by the call
+that finally consumes it). -/
+theorem dump_readline_exact (B : Nat) (st : Rd) :
+    (dumpReadLine B st).2.2 ++ (dumpReadLine B st).2.1.bytes = st.bytes := by
+  have hc := readSlice_bytes B st
+  cases h : readSlice B st with
+  | mk r st1 =>
+    rw [h] at hc
+    simp only [dumpReadLine, h]
+    simp only [Rd.bytes] at hc ⊢
+    split
+    · split
+      · next hcr =>
+        rw [← hc]
+        conv => rhs; rw [← lastIs_dropLast hcr]
+        simp
+      · exact hc
+    · split
+      · next he => simpa [he] using hc
+      · exact hc
+
+example : (dumpReadLine 16 (Rd.ofSrc [⟨[72, 105, 13, 10, 88], none⟩])) =
+    (⟨[72, 105], false, none⟩, ⟨[88], none, []⟩, [72, 105, 13, 10]) := by decide
+
+/-- The model's recursion fuel is never what ends a `ReadSlice`: the `stuck` marker is
+unreachable, every model answer is a Go answer. -/
+theorem model_readslice_total (B : Nat) (st : Rd) (hs : st.err ≠ some .stuck) :
+    (readSlice B st).1.err ≠ some .stuck := readSlice_not_stuck B st hs
+
+theorem plain_readline_dumps_nothing (B : Nat) (st : Rd) : (plainReadLine B st).2.2 = [] := by
+  simp [plainReadLine]
+
+/-! ### whole lines: `readLineSlice` -/
+
+theorem readLineSliceLoop_congr (rl1 rl2 : LineFn)
+    (h : ∀ st, ((rl1 st).1, (rl1 st).2.1) = ((rl2 st).1, (rl2 st).2.1))
+    (lim : Option Nat) (f : Nat) (acc d1 d2 : Bytes) (st : Rd) :
+    (readLineSliceLoop rl1 lim f acc d1 st).res = (readLineSliceLoop rl2 lim f acc d2 st).res ∧
+    (readLineSliceLoop rl1 lim f acc d1 st).st = (readLineSliceLoop rl2 lim f acc d2 st).st := by
+  induction f generalizing acc d1 d2 st with
+  | zero => simp [readLineSliceLoop]
+  | succ f ih =>
+    have hs := h st
+    cases h1 : rl1 st with
+    | mk r1 p1 =>
+      cases p1 with
+      | mk s1 e1 =>
+        cases h2 : rl2 st with
+        | mk r2 p2 =>
+          cases p2 with
+          | mk s2 e2 =>
+            rw [h1, h2] at hs
+            simp only [Prod.mk.injEq] at hs
+            obtain ⟨rfl, rfl⟩ := hs
+            simp only [readLineSliceLoop, h1, h2]
+            split
+            · simp
+            · split
+              · simp
+              · split
+                · exact ih _ _ _ _
+                · simp
+
+/-- **dump_readlineslice_equiv**: a whole line of ANY length (also many times the buffer size)
+is read identically — same bytes or same error, same reader state — with and without dump. -/
+theorem dump_readlineslice_equiv (B : Nat) (_hB : 16 ≤ B) (lim : Option Nat) (st : Rd) :
+    (readLineSlice (dumpReadLine B) lim st).res = (readLineSlice (plainReadLine B) lim st).res ∧
+    (readLineSlice (dumpReadLine B) lim st).st = (readLineSlice (plainReadLine B) lim st).st := by
+  apply readLineSliceLoop_congr
+  intro st
+  rw [dump_readline_equiv B _hB st]
+  simp [plainReadLine]
+
+theorem readLineSliceLoop_exact (rl : LineFn)
+    (h : ∀ st, (rl st).2.2 ++ (rl st).2.1.bytes = st.bytes)
+    (lim : Option Nat) (f : Nat) (acc d : Bytes) (st : Rd) :
+    (readLineSliceLoop rl lim f acc d st).dumped ++ (readLineSliceLoop rl lim f acc d st).st.bytes
+      = d ++ st.bytes := by
+  induction f generalizing acc d st with
+  | zero => simp [readLineSliceLoop]
+  | succ f ih =>
+    have hs := h st
+    cases h1 : rl st with
+    | mk r1 p1 =>
+      cases p1 with
+      | mk s1 e1 =>
+        rw [h1] at hs
+        simp only at hs
+        simp only [readLineSliceLoop, h1]
+        split
+        · simp [← hs]
+        · split
+          · simp [← hs]
+          · split
+            · rw [ih]; simp [← hs]
+            · simp [← hs]
+
+/-- **dump_readlineslice_exact**: the dump of reading one line is exactly the bytes the read
+consumed (terminator included), whatever the line length and the read sizes. -/
+theorem dump_readlineslice_exact (B : Nat) (lim : Option Nat) (st : Rd) :
+    (readLineSlice (dumpReadLine B) lim st).dumped ++ (readLineSlice (dumpReadLine B) lim st).st.bytes
+      = st.bytes := by
+  have := readLineSliceLoop_exact (dumpReadLine B) (dump_readline_exact B) lim
+    (st.bytes.length + 2) [] [] st
+  simpa [readLineSlice] using this
+
+/-- The accumulation loop always ends with a Go result (every `isPrefix` round consumes at least
+`B - 1 ≥ 1` bytes): the model's `stuck` marker is unreachable here too. `2 ≤ B` is needed —
+with a 1-byte buffer `bufio.ReadLine` itself would spin on a lone '\r'. -/
+theorem model_readlineslice_total (B : Nat) (hB : 2 ≤ B) (lim : Option Nat) (st : Rd)
+    (h : GoodErr st.err) :
+    (readLineSlice (dumpReadLine B) lim st).res ≠ .error .stuck := by
+  suffices hl : ∀ f acc d (st : Rd), GoodErr st.err → st.bytes.length + 1 ≤ f →
+      (readLineSliceLoop (dumpReadLine B) lim f acc d st).res ≠ .error .stuck from
+    hl _ [] [] st h (by omega)
+  intro f
+  induction f with
+  | zero => intro _ _ st _ hf; omega
+  | succ f ih =>
+    intro acc d st h hf
+    have hspec := dumpReadLine_spec B st h
+    have hex := dump_readline_exact B st
+    cases hrl : dumpReadLine B st with
+    | mk r p =>
+      cases p with
+      | mk st1 d1 =>
+        rw [hrl] at hspec hex
+        simp only at hspec hex
+        simp only [readLineSliceLoop, hrl]
+        split
+        · next e he =>
+          intro hc
+          simp only [Res.error.injEq] at hc
+          exact hspec.2.1 (he.trans (congrArg some hc))
+        · split
+          · simp
+          · split
+            · next hp =>
+              apply ih _ _ st1 hspec.1
+              have h1 := hspec.2.2 hp
+              have h2 := congrArg List.length hex
+              simp only [List.length_append] at h2
+              omega
+            · simp
+
+-- a 20-byte line through a 16-byte buffer, delivered in two reads
+example : (readLineSlice (dumpReadLine 16) none
+      (Rd.ofSrc [⟨[88, 45, 65, 58, 32, 97, 97, 97, 97, 97], none⟩,
+                 ⟨[97, 97, 97, 97, 97, 97, 97, 97, 13, 10, 89], none⟩])).res
+    = .ok [88, 45, 65, 58, 32, 97, 97, 97, 97, 97, 97, 97, 97, 97, 97, 97, 97, 97] := by decide
+
+/-! ### any parser on top of the reader -/
+
+/-- **dump_prog_equiv**: every parser built from `readLine` calls and direct reader access
+computes the same result and leaves the same reader state with the dumping `readLine`. -/
+theorem dump_prog_equiv {α : Type} (B : Nat) (hB : 16 ≤ B) (p : Prog α) (st : Rd) (d d' : Bytes)
+    (e e' : Bool) :
+    (p.run (dumpReadLine B) e st d).1 = (p.run (plainReadLine B) e' st d').1 ∧
+    (p.run (dumpReadLine B) e st d).2.1 = (p.run (plainReadLine B) e' st d').2.1 := by
+  induction p generalizing st d d' with
+  | ret a => simp [Prog.run]
+  | line k ih =>
+    have hs := dump_readline_equiv B hB st
+    cases h1 : dumpReadLine B st with
+    | mk r1 p1 =>
+      cases p1 with
+      | mk s1 e1 =>
+        rw [h1] at hs
+        simp only [Prog.run, h1, plainReadLine, ← hs]
+        exact ih _ _ _ _
+  | look k ih => simp only [Prog.run]; exact ih _ _ _ _
+  | upd f k ih => simp only [Prog.run]; exact ih _ _ _
+  | eat f k ih =>
+    simp only [Prog.run]
+    cases f st with
+    | mk e1 s1 => exact ih _ _ _ _
+
+/-- **dump_prog_exact**: for such a parser the dump is exactly the consumed bytes. -/
+theorem dump_prog_exact {α : Type} (B : Nat) (p : Prog α) (hp : p.Accounted) (st : Rd) (d : Bytes) :
+    (p.run (dumpReadLine B) true st d).2.2 ++ (p.run (dumpReadLine B) true st d).2.1.bytes
+      = d ++ st.bytes := by
+  induction p generalizing st d with
+  | ret a => simp [Prog.run]
+  | line k ih =>
+    have hs := dump_readline_exact B st
+    cases h1 : dumpReadLine B st with
+    | mk r1 p1 =>
+      cases p1 with
+      | mk s1 e1 =>
+        rw [h1] at hs
+        simp only at hs
+        simp only [Prog.run, h1]
+        rw [ih _ (hp r1)]
+        simp [← hs]
+  | look k ih => simp only [Prog.run]; exact ih _ (hp st) _ _
+  | upd f k ih => simp only [Prog.run]; rw [ih hp.2, hp.1]
+  | eat f k ih =>
+    have hs := hp.1 st
+    simp only [Prog.run]
+    cases h1 : f st with
+    | mk e1 s1 =>
+      rw [h1] at hs
+      simp only at hs
+      simp only [if_true]
+      rw [ih _ (hp.2 e1)]
+      simp [← hs]
+
+/-- A header line with one obs-fold continuation, read the way `readContinuedLineSlice` does:
+`readLine`, `skipSpace` (direct ReadByte access), `readLine`. -/
+def foldProg (B : Nat) : Prog (Bytes × Bytes × Bytes) :=
+  .line fun r1 => .eat (skipSpace B) fun sp => .line fun r2 => .ret (r1.line, sp, r2.line)
+
+/-- …is accounted (`skipSpace` returns exactly what it removed), so `dump_prog_exact` applies:
+after fixes/C13-2 the blanks eaten by `skipSpace` are in the dump. -/
+theorem foldProg_accounted (B : Nat) : (foldProg B).Accounted :=
+  fun _ => ⟨fun st => skipSpace_bytes B st, fun _ _ => trivial⟩
+
+theorem foldProg_dump_exact (B : Nat) (st : Rd) :
+    ((foldProg B).run (dumpReadLine B) true st []).2.2 ++
+      ((foldProg B).run (dumpReadLine B) true st []).2.1.bytes = st.bytes := by
+  simpa using dump_prog_exact B (foldProg B) (foldProg_accounted B) st []
+
+-- "A: b\r\n  c\r\nX": lines "A: b" and "c", two blanks eaten, all 11 consumed bytes dumped
+example : (foldProg 16).run (dumpReadLine 16) true
+      (Rd.ofSrc [⟨[65, 58, 32, 98, 13, 10, 32, 32, 99, 13, 10, 88], none⟩]) []
+    = (([65, 58, 32, 98], [32, 32], [99]), ⟨[88], none, []⟩,
+       [65, 58, 32, 98, 13, 10, 32, 32, 99, 13, 10]) := by decide
+
+/-! ### the closure as it stands in the pinned tree -/
+
+/-- **old_dump_readline_not_equiv**: with a 16-byte buffer and a 20-byte header line the
+closure of the pinned tree returns the first 16 bytes as a COMPLETE line (`isPrefix = false`)
+where `bufio.ReadLine` reports a prefix: `readLineSlice` then yields a truncated line and the
+remainder is parsed as the next header ("malformed MIME header: missing colon"). -/
+theorem old_dump_readline_not_equiv :
+    ∃ st : Rd, (dumpReadLineOld 16 st).1 ≠ (readLine 16 st).1 ∧
+      (readLineSlice (dumpReadLineOld 16) none st).res ≠ (readLineSlice (plainReadLine 16) none st).res :=
+  ⟨Rd.ofSrc [⟨[88, 45, 65, 58, 32, 97, 97, 97, 97, 97, 97, 97, 97, 97, 97, 97, 97, 97, 13, 10], none⟩],
+    by decide, by decide⟩
+
+/-- …and it is equivalent exactly as long as `ReadSlice` never reports a full buffer, which is
+why the 141 tests (short header lines) never see it. -/
+theorem old_dump_readline_equiv_when_fits (B : Nat) (st : Rd)
+    (h : (readSlice B st).1.err ≠ some .bufferFull) :
+    dumpReadLineOld B st = dumpReadLine B st := by
+  cases h1 : readSlice B st with
+  | mk r st1 =>
+    rw [h1] at h
+    simp only [dumpReadLineOld, dumpReadLine, h1]
+    simp [h]
+
+end Req.Props.C13
+
+/-!
+Part 2: routing, wrappers, async delivery (`Req.Client.Dump`).
+`routing_resolve_*`      — which writer a part resolves to (own > direction > Output()).
+`routing`                — one dumper, one attempt: an enabled non-empty part is emitted exactly
+                           once, to exactly its resolved writer; a disabled part never.
+`selected_parts_exact`   — the bytes a writer holds are exactly the enabled parts resolved to
+                           it, each once, in order — for any number of dumpers and attempts.
+`wrappers_transparent`   — what passes through a dump wrapper (results seen by the caller, state
+                           of the wrapped writer/reader) is unchanged, for every sequence of
+                           writes / read sizes, also when wrappers are nested.
+`wrappers_exact`         — the wrapper dumped exactly the bytes that passed, once.
+`async_same_content`     — for every schedule of the sending goroutines and the `Start` loop the
+                           writers receive a prefix of what the synchronous dump writes, in order;
+                           all of it once the queue is drained; a fair schedule drains it.
+`unstarted_async_*`      — a dumper nobody started writes nothing and blocks its 21st sender
+                           (the request-level async defect of the pinned tree).
+-/
+namespace Req.Props.C13
+open Req.Proto Req.Client.Dump
+
+/-! ### routing -/
+
+theorem routing_resolve_own (o : Opts) :
+    (∀ w, o.requestHeaderOutput = some w → o.resolve .reqHeader = w) ∧
+    (∀ w, o.requestBodyOutput = some w → o.resolve .reqBody = w) ∧
+    (∀ w, o.responseHeaderOutput = some w → o.resolve .respHeader = w) ∧
+    (∀ w, o.responseBodyOutput = some w → o.resolve .respBody = w) := by
+  refine ⟨?_, ?_, ?_, ?_⟩ <;> intro w h <;> simp [Opts.resolve, pick, h]
+
+theorem routing_resolve_direction (o : Opts) :
+    (∀ w, o.requestHeaderOutput = none → o.requestOutput = some w → o.resolve .reqHeader = w) ∧
+    (∀ w, o.requestBodyOutput = none → o.requestOutput = some w → o.resolve .reqBody = w) ∧
+    (∀ w, o.responseHeaderOutput = none → o.responseOutput = some w → o.resolve .respHeader = w) ∧
+    (∀ w, o.responseBodyOutput = none → o.responseOutput = some w → o.resolve .respBody = w) := by
+  refine ⟨?_, ?_, ?_, ?_⟩ <;> intro w h1 h2 <;> simp [Opts.resolve, pick, h1, h2]
+
+theorem routing_resolve_default (o : Opts) :
+    (o.requestHeaderOutput = none → o.requestOutput = none → o.resolve .reqHeader = o.out) ∧
+    (o.requestBodyOutput = none → o.requestOutput = none → o.resolve .reqBody = o.out) ∧
+    (o.responseHeaderOutput = none → o.responseOutput = none → o.resolve .respHeader = o.out) ∧
+    (o.responseBodyOutput = none → o.responseOutput = none → o.resolve .respBody = o.out) := by
+  refine ⟨?_, ?_, ?_, ?_⟩ <;> intro h1 h2 <;> simp [Opts.resolve, pick, h1, h2]
+
+/-- After `newDumper` the default writer is never a nil one and only `Output` was touched. -/
+theorem newDumper_out (o : Opts) :
+    (newDumper o).out = (match o.output with | some w => w | none => stderr) ∧
+    ∀ p, (newDumper o).enabled p = o.enabled p := by
+  constructor
+  · unfold newDumper Opts.out; cases h : o.output <;> simp [h]
+  · intro p; unfold newDumper; cases h : o.output <;> cases p <;> rfl
+
+theorem events_of_part (c : Part → Bool) (ev : Part → PartEvent) (hev : ∀ q, (ev q).part = q)
+    (p : Part) (ps : List Part) (hnd : ps.Nodup) :
+    ((ps.filterMap fun q => if c q then some (ev q) else none).filter (·.part = p))
+    = if p ∈ ps ∧ c p = true then [ev p] else [] := by
+  induction ps with
+  | nil => simp
+  | cons q qs ih =>
+    have hq : q ∉ qs := (List.nodup_cons.mp hnd).1
+    have ih := ih (List.nodup_cons.mp hnd).2
+    simp only [List.filterMap_cons]
+    by_cases hc : c q = true
+    · simp only [hc, if_true, List.filter_cons, hev]
+      by_cases hqp : q = p
+      · subst hqp
+        rw [ih]; simp [hq, hc]
+      · have : ¬ p = q := fun h => hqp h.symm
+        rw [ih]; simp [hqp, this]
+    · simp only [Bool.not_eq_true] at hc
+      simp only [hc, Bool.false_eq_true, if_false]
+      by_cases hqp : q = p
+      · subst hqp
+        rw [ih]; simp [hq, hc]
+      · have : ¬ p = q := fun h => hqp h.symm
+        rw [ih]; simp [this]
+
+/-- **routing**: an enabled (non-empty) part goes, exactly once, to exactly the writer it
+resolves to; a disabled part goes to no writer. -/
+theorem routing (o : Opts) (e : Exchange) (p : Part) :
+    (o.enabled p = true → (e.part p).isEmpty = false →
+      (dumperEvents o e).filter (·.part = p) = [⟨o.resolve p, p, e.part p⟩]) ∧
+    (o.enabled p = false → (dumperEvents o e).filter (·.part = p) = []) := by
+  have hall : p ∈ Part.all := by cases p <;> simp [Part.all]
+  have h := events_of_part (fun q => o.enabled q && !(e.part q).isEmpty)
+    (fun q => ⟨o.resolve q, q, e.part q⟩) (fun _ => rfl) p Part.all (by decide)
+  unfold dumperEvents
+  constructor
+  · intro h1 h2
+    rw [h]; simp [hall, h1, h2]
+  · intro h1
+    rw [h]; simp [h1]
+
+example : dumperEvents { requestHeader := true, responseBody := true, output := some 1,
+                         responseBodyOutput := some 2 } ⟨[71], [1], [72], [98]⟩
+    = [⟨1, .reqHeader, [71]⟩, ⟨2, .respBody, [98]⟩] := by decide
+
+/-- **presets_exact**: a convenience setter switches off exactly the parts it names and never
+switches a part on; nothing else about routing changes. -/
+theorem presets_exact (p : Preset) (o : Opts) (q : Part) :
+    (p.apply o).enabled q = (o.enabled q && !(p.off.contains q)) := by
+  cases p <;> cases q <;> simp [Preset.apply, Preset.off, Opts.enabled]
+
+theorem presets_only_narrow (ps : List Preset) (o : Opts) (q : Part) :
+    (applyPresets ps o).enabled q = true → o.enabled q = true := by
+  induction ps generalizing o with
+  | nil => simp [applyPresets]
+  | cons p ps ih =>
+    intro h
+    have := ih (p.apply o) h
+    rw [presets_exact] at this
+    simp only [Bool.and_eq_true] at this
+    exact this.1
+
+example : (applyPresets [.withoutRequestBody, .withoutResponse] (defaultOpts stdout)).enabled .reqHeader = true ∧
+    (applyPresets [.withoutRequestBody, .withoutResponse] (defaultOpts stdout)).enabled .reqBody = false := by decide
+
+/-! ### each selected part exactly once, nothing else -/
+
+theorem contentP_append (w : Writer) (a b : List PartEvent) :
+    contentP w (a ++ b) = contentP w a ++ contentP w b := by
+  induction a with
+  | nil => simp [contentP]
+  | cons x xs ih => simp [contentP, ih]
+
+theorem contentP_dumper (o : Opts) (e : Exchange) (w : Writer) (ps : List Part) :
+    contentP w (ps.filterMap fun p =>
+        if o.enabled p && !(e.part p).isEmpty then some (⟨o.resolve p, p, e.part p⟩ : PartEvent) else none)
+    = (ps.filter fun p => o.enabled p && o.resolve p == w).flatMap e.part := by
+  induction ps with
+  | nil => simp [contentP]
+  | cons q qs ih =>
+    simp only [List.filterMap_cons, List.filter_cons]
+    by_cases h1 : o.enabled q = true <;> by_cases h2 : (e.part q).isEmpty = true <;>
+      by_cases h3 : o.resolve q = w <;> simp_all [contentP]
+
+/-- The selected parts of one attempt for writer `w`: the enabled parts that resolve to `w`,
+in wire order. -/
+def selectedParts (o : Opts) (e : Exchange) (w : Writer) : Bytes :=
+  (Part.all.filter fun p => o.enabled p && o.resolve p == w).flatMap e.part
+
+theorem contentP_dumpers (ds : List Opts) (e : Exchange) (w : Writer) :
+    contentP w (ds.flatMap fun o => dumperEvents o e) = ds.flatMap fun o => selectedParts o e w := by
+  induction ds with
+  | nil => simp [contentP]
+  | cons o os ih =>
+    simp only [List.flatMap_cons, contentP_append, ih]
+    congr 1
+    exact contentP_dumper o e w Part.all
+
+/-- **selected_parts_exact**: for any dumper list (client-level, request-level, both) and any
+number of attempts (retries, redirect hops) writer `w` holds exactly the selected parts, each
+once, attempt after attempt. -/
+theorem selected_parts_exact (ds : List Opts) (es : List Exchange) (w : Writer) :
+    expectedDump ds es w = es.flatMap fun e => ds.flatMap fun o => selectedParts o e w := by
+  unfold expectedDump expectedEvents
+  induction es with
+  | nil => simp [contentP]
+  | cons e es ih =>
+    simp only [List.flatMap_cons, contentP_append, ih, contentP_dumpers]
+
+theorem disabled_part_dumpers (ds : List Opts) (e : Exchange) (p : Part)
+    (h : ∀ o ∈ ds, o.enabled p = false) :
+    (ds.flatMap fun o => dumperEvents o e).filter (·.part = p) = [] := by
+  induction ds with
+  | nil => simp
+  | cons o os ih =>
+    simp only [List.flatMap_cons, List.filter_append]
+    rw [(routing o e p).2 (h o (by simp)), ih (fun o' ho' => h o' (by simp [ho']))]
+    simp
+
+/-- Nothing of a part that is switched off in every dumper reaches any writer. -/
+theorem disabled_part_nowhere (ds : List Opts) (es : List Exchange) (p : Part)
+    (h : ∀ o ∈ ds, o.enabled p = false) :
+    (expectedEvents ds es).filter (·.part = p) = [] := by
+  unfold expectedEvents
+  induction es with
+  | nil => simp
+  | cons e es ih =>
+    simp only [List.flatMap_cons, List.filter_append, ih, List.append_nil]
+    exact disabled_part_dumpers ds e p h
+
+example : expectedDump
+    [{ requestHeader := true, responseBody := true, output := some 1, responseBodyOutput := some 2 },
+     { responseBody := true, requestBody := true, output := some 3 }]
+    [⟨[71], [1], [72], [98]⟩, ⟨[71], [], [72], [99]⟩] 3 = [1, 98, 99] := by decide
+
+/-! ### wrappers -/
+
+/-- **wrappers_transparent** (writers): for every sequence of writes, the results the caller
+sees and everything the wrapped writer experiences are the same as without the wrapper. -/
+theorem wrappers_transparent {σ : Type} (w : WriterM σ) (s : σ) (d : Bytes) (ps : List Bytes) :
+    ((wrapWriter w).runAll (s, d) ps).1 = (w.runAll s ps).1 ∧
+    ((wrapWriter w).runAll (s, d) ps).2.1 = (w.runAll s ps).2 := by
+  induction ps generalizing s d with
+  | nil => simp [WriterM.runAll]
+  | cons p ps ih =>
+    have := ih (w.write s p).2 (d ++ p.take (w.write s p).1.n)
+    simp only [WriterM.runAll, wrapWriter] at this ⊢
+    simp [this.1, this.2]
+
+/-- What passed: the accepted prefix of every write. -/
+def passed : List Bytes → List IORes → Bytes
+  | p :: ps, r :: rs => p.take r.n ++ passed ps rs
+  | _, _ => []
+
+/-- **wrappers_exact** (writers): the dump is exactly the bytes that passed, once. -/
+theorem wrappers_exact {σ : Type} (w : WriterM σ) (s : σ) (d : Bytes) (ps : List Bytes) :
+    ((wrapWriter w).runAll (s, d) ps).2.2 = d ++ passed ps (w.runAll s ps).1 := by
+  induction ps generalizing s d with
+  | nil => simp [WriterM.runAll, passed]
+  | cons p ps ih =>
+    have := ih (w.write s p).2 (d ++ p.take (w.write s p).1.n)
+    simp only [WriterM.runAll, wrapWriter] at this ⊢
+    simp [this, passed]
+
+/-- Two dumpers (client-level and request-level) wrap the same writer twice: still
+transparent, and both dump the same bytes. -/
+theorem wrappers_nested {σ : Type} (w : WriterM σ) (s : σ) (ps : List Bytes) :
+    ((wrapWriter (wrapWriter w)).runAll ((s, []), []) ps).1 = (w.runAll s ps).1 ∧
+    ((wrapWriter (wrapWriter w)).runAll ((s, []), []) ps).2.1.1 = (w.runAll s ps).2 ∧
+    ((wrapWriter (wrapWriter w)).runAll ((s, []), []) ps).2.2 =
+      ((wrapWriter (wrapWriter w)).runAll ((s, []), []) ps).2.1.2 := by
+  have t1 := wrappers_transparent (wrapWriter w) (s, []) [] ps
+  have t2 := wrappers_transparent w s [] ps
+  have e1 := wrappers_exact (wrapWriter w) (s, []) [] ps
+  have e2 := wrappers_exact w s [] ps
+  refine ⟨t1.1.trans t2.1, ?_, ?_⟩
+  · rw [t1.2]; exact t2.2
+  · rw [e1, t1.2, e2, t2.1]
+
+/-- **wrappers_transparent** (response body reader): for every sequence of read sizes the
+caller gets the same data and errors, and the wrapped reader ends in the same state. -/
+theorem wrappers_transparent_reader {σ : Type} (r : ReaderM σ) (s : σ) (d : Bytes) (k : Nat)
+    (caps : List Nat) :
+    ((wrapReader r).runAll (s, d, k) caps).1 = (r.runAll s caps).1 ∧
+    ((wrapReader r).runAll (s, d, k) caps).2.1 = (r.runAll s caps).2 := by
+  induction caps generalizing s d k with
+  | nil => simp [ReaderM.runAll]
+  | cons c cs ih =>
+    have := ih (r.read s c).2 (d ++ (r.read s c).1.1) (if (r.read s c).1.2 = 1 then k + 1 else k)
+    simp only [ReaderM.runAll, wrapReader] at this ⊢
+    simp [this.1, this.2]
+
+def received : List (Bytes × Nat) → Bytes
+  | [] => []
+  | x :: xs => x.1 ++ received xs
+
+def eofs : List (Bytes × Nat) → Nat
+  | [] => 0
+  | x :: xs => (if x.2 = 1 then 1 else 0) + eofs xs
+
+/-- **wrappers_exact** (response body reader): the dumped body is exactly the bytes the caller
+received, once, and one separator is written per reported EOF. -/
+theorem wrappers_exact_reader {σ : Type} (r : ReaderM σ) (s : σ) (d : Bytes) (k : Nat)
+    (caps : List Nat) :
+    ((wrapReader r).runAll (s, d, k) caps).2.2.1 = d ++ received (r.runAll s caps).1 ∧
+    ((wrapReader r).runAll (s, d, k) caps).2.2.2 = k + eofs (r.runAll s caps).1 := by
+  induction caps generalizing s d k with
+  | nil => simp [ReaderM.runAll, received, eofs]
+  | cons c cs ih =>
+    have := ih (r.read s c).2 (d ++ (r.read s c).1.1) (if (r.read s c).1.2 = 1 then k + 1 else k)
+    simp only [ReaderM.runAll, wrapReader] at this ⊢
+    refine ⟨by simp [this.1, received], ?_⟩
+    rw [this.2]
+    simp only [eofs]
+    split <;> omega
+
+example : ((wrapWriter limitedWriter).runAll ((5, []), []) [[1, 2, 3], [4, 5, 6], [7]]) =
+    ([⟨3, 0⟩, ⟨2, 2⟩, ⟨0, 2⟩], ((0, [1, 2, 3, 4, 5]), [1, 2, 3, 4, 5])) := by decide
+
+example : ((wrapReader (bytesReader false)).runAll ([1, 2, 3], [], 0) [2, 2, 2]) =
+    ([([1, 2], 0), ([3], 0), ([], 1)], ([], [1, 2, 3], 1)) := by decide
+
+/-! ### async delivery -/
+
+/-- Channel invariant: written ++ queued ++ not-yet-sent is the program-order event list. -/
+theorem chan_step_inv (cap : Nat) (c c' : Chan) (st : Step) (h : c.step cap st = some c') :
+    c'.written ++ c'.queue ++ c'.todo = c.written ++ c.queue ++ c.todo ∧ c'.started = c.started := by
+  cases st with
+  | send =>
+    simp only [Chan.step] at h
+    split at h
+    · cases h
+    · split at h
+      · cases h; simp_all
+      · cases h
+  | recv =>
+    simp only [Chan.step] at h
+    split at h
+    · split at h
+      · cases h
+      · cases h; simp_all
+    · cases h
+
+theorem chan_run_inv (cap : Nat) (c : Chan) (sched : List Step) :
+    (c.run cap sched).written ++ (c.run cap sched).queue ++ (c.run cap sched).todo
+      = c.written ++ c.queue ++ c.todo ∧ (c.run cap sched).started = c.started := by
+  induction sched generalizing c with
+  | nil => simp [Chan.run]
+  | cons s ss ih =>
+    simp only [Chan.run]
+    cases h : c.step cap s with
+    | none => exact ih c
+    | some c' =>
+      have h1 := chan_step_inv cap c c' s h
+      have h2 := ih c'
+      exact ⟨h2.1.trans h1.1, h2.2.trans h1.2⟩
+
+theorem content_append (w : Writer) (a b : List Event) :
+    content w (a ++ b) = content w a ++ content w b := by
+  induction a with
+  | nil => simp [content]
+  | cons x xs ih => simp [content, ih]
+
+/-- **async_same_content**: under EVERY schedule of senders and the `Start` loop, what has been
+written is a prefix (in program order) of the synchronous dump; once the queue is drained every
+writer holds exactly the synchronous content. -/
+theorem async_same_content (cap : Nat) (evs : List Event) (sched : List Step) :
+    let c := (Chan.mk evs [] [] true).run cap sched
+    (∃ rest, c.written ++ rest = evs) ∧
+    (c.done = true → ∀ w, content w c.written = content w evs) := by
+  intro c
+  have h := (chan_run_inv cap ⟨evs, [], [], true⟩ sched).1
+  simp only [List.nil_append] at h
+  constructor
+  · exact ⟨c.queue ++ c.todo, by simpa [List.append_assoc] using h⟩
+  · intro hd w
+    simp only [Chan.done, Bool.and_eq_true, List.isEmpty_iff] at hd
+    have : c.written = evs := by
+      have h' := h
+      simp only [c] at hd
+      rw [hd.1, hd.2] at h'
+      simpa using h'
+    rw [this]
+
+/-- The alternating schedule send, recv, send, recv, … drains any event list (capacity ≥ 1):
+delivery does complete, so the theorem above is not vacuous. -/
+def alternating : Nat → List Step
+  | 0 => []
+  | n + 1 => .send :: .recv :: alternating n
+
+theorem async_alternating_drains (cap : Nat) (hcap : 0 < cap) (evs wr : List Event) :
+    ((Chan.mk evs [] wr true).run cap (alternating evs.length)).done = true := by
+  induction evs generalizing wr with
+  | nil => simp [alternating, Chan.run, Chan.done]
+  | cons e es ih =>
+    simp only [List.length_cons, alternating, Chan.run, Chan.step, List.length_nil, hcap, if_true,
+      List.nil_append]
+    exact ih _
+
+/-- **unstarted_async_writes_nothing**: a dumper whose `Start` loop was never launched (every
+request-level dumper of the pinned tree) writes nothing under any schedule… -/
+theorem unstarted_async_writes_nothing (cap : Nat) (evs : List Event) (sched : List Step) :
+    ((Chan.mk evs [] [] false).run cap sched).written = [] := by
+  suffices h : ∀ c : Chan, c.started = false → c.written = [] → (c.run cap sched).written = [] from
+    h _ rfl rfl
+  induction sched with
+  | nil => intro c _ hw; simpa [Chan.run] using hw
+  | cons s ss ih =>
+    intro c hs hw
+    simp only [Chan.run]
+    cases h : c.step cap s with
+    | none => exact ih c hs hw
+    | some c' =>
+      apply ih c'
+      · exact (chan_step_inv cap c c' s h).2.trans hs
+      · cases s with
+        | send =>
+          simp only [Chan.step] at h
+          split at h
+          · cases h
+          · split at h
+            · cases h; simpa using hw
+            · cases h
+        | recv => simp [Chan.step, hs] at h
+
+/-- …and once `cap` tasks are queued the next `DumpTo` blocks for ever: no step is enabled. -/
+theorem unstarted_async_blocks (cap : Nat) (c : Chan) (hs : c.started = false)
+    (hfull : c.queue.length = cap) (st : Step) : c.step cap st = none := by
+  cases st with
+  | send =>
+    simp only [Chan.step]
+    split
+    · rfl
+    · simp [hfull]
+  | recv => simp [Chan.step, hs]
+
+example : ((Chan.mk [⟨1, [65]⟩, ⟨2, [66]⟩, ⟨1, [67]⟩] [] [] true).run 2
+    [.recv, .send, .send, .send, .recv, .send, .recv, .recv]).written
+    = [⟨1, [65]⟩, ⟨2, [66]⟩, ⟨1, [67]⟩] := by decide
+
+end Req.Props.C13
